@@ -266,5 +266,21 @@ pub fn reuse_checks(rt: &tokio::runtime::Runtime) -> Vec<String> {
             fails.push(format!("sibling-removed-after-an-earlier-lookup-is-still-reported(round={})", round));
         }
     }
+    // the base directory is the directory that was opened, not whatever carries its name later: after a
+    // rename-and-replace deployment the same FsDir still serves from the original directory
+    {
+        use std::os::unix::fs::MetadataExt;
+        let want = std::fs::metadata(base.join("late")).map(|m| m.ino()).unwrap_or(0);
+        let other = tmp.path().join("other");
+        std::fs::create_dir(&other).unwrap();
+        std::fs::write(other.join("late"), "from another directory").unwrap();
+        std::fs::rename(&base, tmp.path().join("base-old")).unwrap();
+        std::fs::rename(&other, &base).unwrap();
+        let d = dir.clone();
+        let got = rt.block_on(async move { tokio::spawn(async move { d.get("late", &http::HeaderMap::new()).await }).await }).ok().and_then(|r| r.ok()).map(|n| n.metadata().ino());
+        if got != Some(want) {
+            fails.push("file-outside-the-opened-base-directory-after-it-was-renamed-and-replaced".to_string());
+        }
+    }
     fails
 }
